@@ -17,7 +17,7 @@
 #include <stdio.h>
 #include <stdlib.h>
 #include <string.h>
-static FILE *vnd_script;
+__attribute__((weak)) FILE *vnd_script;   /* one script position shared by all translation units of a replay */
 static long long vnd_next(const char *kind) {
     char k[32]; long long v;
     if (!vnd_script) {
@@ -29,6 +29,7 @@ static long long vnd_next(const char *kind) {
         /* script exhausted: the native run makes more choices than the trace; use 0 */
         return 0;
     }
+    if (getenv("VND_DEBUG")) fprintf(stderr, "vnd %s -> %s %lld\n", kind, k, v);
     if (strcmp(k, kind) != 0) { printf("REPLAY-MISMATCH: wanted %s got %s\n", kind, k); exit(79); }
     return v;
 }
